@@ -83,7 +83,8 @@ type predicted struct {
 	errOff     int     // -1 none
 	underflow  bool
 	steps      int
-	modelSelf  string // non-empty: the possessive model disagrees with itself vs runtime control (model validation failure)
+	stackSig   string // the deepest state stack reached (names joined), used to pick inputs for the interleaving test
+	maxDepth   int
 }
 
 func (s *stepper) run(in string) predicted {
@@ -132,6 +133,10 @@ func (s *stepper) run(in string) predicted {
 		switch sel.Act {
 		case m.Push:
 			stack = append(stack, sel.State)
+			if len(stack) > p.maxDepth {
+				p.maxDepth = len(stack)
+				p.stackSig = strings.Join(stack, ">")
+			}
 		case m.Pop:
 			if len(stack) == 1 {
 				p.underflow = true
@@ -213,28 +218,43 @@ func runItem(w *hx.Worker, sh *shared, it genfam.Item, onlyInput *string) {
 	}
 	// several live lexers of ONE generated definition, advanced alternately, must not disturb each other
 	if onlyInput == nil && (it.Family == "stack" || it.Family == "include" || it.Family == "names") {
+		// inputs that drive the lexer at least two states deep, up to 3 per distinct deepest stack, at most 36
+		// in all: every ordered pair of them is advanced alternately
 		var picks []string
+		perSig := map[string]int{}
 		for _, in := range ins {
-			if len(in) == it.MaxLen && len(picks) < 12 && len(in) > 0 && (len(picks) == 0 || in[0] != picks[len(picks)-1][0] || len(picks)%2 == 1) {
+			pr := st.run(in)
+			if pr.maxDepth >= 3 && perSig[pr.stackSig] < 3 && len(picks) < 36 {
+				perSig[pr.stackSig]++
 				picks = append(picks, in)
+			}
+		}
+		if len(picks) < 2 {
+			for _, in := range ins {
+				if pr := st.run(in); pr.maxDepth >= 2 && perSig[pr.stackSig] < 3 && len(picks) < 12 {
+					perSig[pr.stackSig]++
+					picks = append(picks, in)
+				}
 			}
 		}
 		alone := map[string]lexdrive.Run{}
 		for _, in := range picks {
 			alone[in] = lexdrive.Drive(gen, "f.txt", in, 0)
 		}
-		for i := 0; i+1 < len(picks); i++ {
-			a, b := picks[i], picks[i+1]
-			w.Count("evaluations", 1)
-			w.Count("interleaved_pairs", 1)
-			ra, rb := driveAlternately(gen, a, b)
-			if d := sameRun(alone[a], ra); d != "" {
-				w.Violate(hx.Violation{Key: key(it, a) + fmt.Sprintf(" :: interleaved with %q", b), Class: "generated-lexers-interfere", Detail: map[string]any{"what": d}})
-				break
-			}
-			if d := sameRun(alone[b], rb); d != "" {
-				w.Violate(hx.Violation{Key: key(it, b) + fmt.Sprintf(" :: interleaved with %q", a), Class: "generated-lexers-interfere", Detail: map[string]any{"what": d}})
-				break
+	pairs:
+		for _, a := range picks {
+			for _, b := range picks {
+				w.Count("evaluations", 1)
+				w.Count("interleaved_pairs", 1)
+				ra, rb := driveAlternately(gen, a, b)
+				if d := sameRun(alone[a], ra); d != "" {
+					w.Violate(hx.Violation{Key: key(it, a) + fmt.Sprintf(" :: interleaved with %q", b), Class: "generated-lexers-interfere", Detail: map[string]any{"what": d}})
+					break pairs
+				}
+				if d := sameRun(alone[b], rb); d != "" {
+					w.Violate(hx.Violation{Key: key(it, b) + fmt.Sprintf(" :: interleaved with %q", a), Class: "generated-lexers-interfere", Detail: map[string]any{"what": d}})
+					break pairs
+				}
 			}
 		}
 	}
